@@ -17,7 +17,10 @@ out.append('Observations outside the 50 properties, made while replaying and lef
            '`Topo_Cart::shift` tests `ndims_ < direction` where `<=` is meant (C33 is not applicable); under `model-check/reduction:odpor` a program\n'
            'drawing MC_random values makes the checker report a spurious `CRASH IN THE PROGRAM` whose path `2;1` replays cleanly, and dpor/sdpor/odpor\n'
            'miss an assertion failure that reduction `none` finds after a `wait_any` (seeded/C41/demo.cpp and run.sh, seen by the seeding agent on the\n'
-           'unchanged tree): these are exploration-algorithm matters (C38, C40: not applicable) that no rule of C41 - the grammar of the path - can see.\n')
+           'unchanged tree): these are exploration-algorithm matters (C38, C40: not applicable) that no rule of C41 - the grammar of the path - can see;\n'
+           '`System::expand()` of an *existing* variable onto a constraint that is already in the modified set does not flag the other constraints of that variable\n'
+           '(tools/triage/c17_observation_late_expand.cpp: v1 keeps 5 where a full solve gives 8) - the histories C17 quantifies over add an activity with its constraints in one\n'
+           'go, where every order of the expands marks all of them, so this is left as an observation; the same repair as the C17 fix (flag every constraint of the variable) would cover it.\n')
 out.append('### 7.1 Repaired (`fixed:` entries of known_findings.json)\n')
 out.append('| property | commit | what failed |')
 out.append('|---|---|---|')
